@@ -304,20 +304,23 @@ def traced_runs(res, args):
             if breaking and r.random() < 0.7:
                 # (the calls are counted per run, not per strategy)
                 strat = 'hierarchical'
-            opts_run = ['--strategy', strat, '-j', str(r.choice([1, 2])),
-                        '--timeout', '20'] + list(seq)
-            wd = os.path.join(base, f'r{i}')
             cfg = {'monitors': ['mut']}
             broken = None
             if breaking:
                 # one mutator fails in every call: the others still have to
-                # be consulted
+                # be consulted (the failing one is switched on explicitly, as
+                # the last option, whatever the sequence said before)
                 broken = r.choice(['EraseNode', 'Constants', 'ReplaceByChild',
                                    'ReplaceByVariable', 'LetSubstitution',
                                    'SortChildren', 'MergeWithChildren',
                                    'BoolDeMorgan', 'SimplifySymbolNames'])
                 cfg['break_mutator'] = broken
                 cfg['break_where'] = r.choice(['mutations', 'filter', 'all'])
+                opt = next(reg[g][broken] for g in reg if broken in reg[g])
+                seq = seq + (f'--{opt}', )
+            opts_run = ['--strategy', strat, '-j', str(r.choice([1, 2])),
+                        '--timeout', '20'] + list(seq)
+            wd = os.path.join(base, f'r{i}')
             run = realrun.run_ddsmt(wd, text, rules, opts=opts_run,
                                     launcher=cfg)
             shutil.rmtree(wd, ignore_errors=True)
@@ -483,6 +486,11 @@ def run(ctx):
     ]
     if ctx.counters.get('traced_runs', 0) == 0:
         ctx.inconclusive_because('no traced run')
+    if ctx.counters.get('traced_runs_with_a_failing_mutator', 0) == 0:
+        ctx.inconclusive_because('no traced run in which the injected '
+                                 'failure of a mutator was reached')
+    if ctx.counters.get('ddmin_sweeps_observed', 0) == 0:
+        ctx.inconclusive_because('no sweep of strategy ddmin observed')
     if ctx.counters.get('sequences_pairs', 0) < 1000:
         ctx.inconclusive_because('too few ordered pairs evaluated')
 
